@@ -37,11 +37,11 @@ Fixpoint x_trace (w : world Z Z) (h : list (Z * Z)) : list sx :=
       let rw := x_step w c in
       L [fst rw;                                               (* what the body saw *)
          of_Zs (x_filled (snd rw));                            (* tables filled after the call *)
-         of_bool (negb (rng (snd rw) =? rng w));               (* generator state changed *)
+         of_bool (s_draws (lookup sigs (fst c)));             (* may touch the global generator *)
          I (rng (snd rw))] :: x_trace (snd rw) r
   end.
 
-(* (r0 ((f a) ...)) -> per call: (seen filled rng_changed rng_state) *)
+(* (r0 ((f a) ...)) -> per call: (seen filled may_touch_rng rng_state) *)
 Definition entry_run (x : sx) : sx :=
   L (x_trace (init Z Z (as_Z (arg 0 x))) (as_pairs (arg 1 x))).
 
